@@ -413,7 +413,15 @@ func (check typecheck) index(n *node, max int) error {
 		return n.cfgErrorf("index %s must be integer", n.typ.id())
 	}
 
-	if !n.rval.IsValid() || max < 1 {
+	if !n.rval.IsValid() {
+		return nil
+	}
+
+	if vInt(n.rval) < 0 {
+		return n.cfgErrorf("invalid argument: index %d must not be negative", vInt(n.rval))
+	}
+
+	if max < 1 {
 		return nil
 	}
 
